@@ -635,7 +635,13 @@ class Sym:
             out = real_np.empty(o.shape, dtype=object)
             for idx in real_np.ndindex(*o.shape):
                 out[idx] = self._bin(o[idx], op, rev)
-            from .arrays import wrap_like
+            from .arrays import wrap_like, np_int_wrap, logical_dtype_of
+            if CTX is not None and CTX.extra.get('numpy_int_semantics') and self.kind in 'ib' and op in ('add', 'sub', 'mul', 'floordiv', '+', '-', '*', '//'):
+                # numpy (NEP 50): an integer scalar does not widen a narrow integer array -- the result keeps the array's dtype and wraps
+                ldt = logical_dtype_of(o)
+                if ldt is not None and ldt.kind in 'iu' and ldt.itemsize < 8:
+                    for idx in real_np.ndindex(*o.shape):
+                        out[idx] = np_int_wrap(out[idx], ldt, str(op))
             return wrap_like(out, o)
         if isinstance(o, Cplx):
             return NotImplemented
